@@ -16,7 +16,11 @@ Definition dec_gop (v : val) : gop :=
   | 7 => GAttach (as_nat a) (as_bool (nthv 2 v))
   | 8 => GDetach (as_nat a) (as_bool (nthv 2 v))
   | 10 => GUnregistAll
-  | _ => GIdle (as_nat a) (as_bool (nthv 2 v))
+  | 11 => GTick (as_int a)
+  | 12 => GSeg (as_nat a)
+  | 13 => GHlsPoll (as_nat a)
+  | 14 => GHlsSeg (as_nat a) (as_int (nthv 2 v))
+  | _ => GIdle (as_nat a) (as_int (nthv 2 v))        (* 9: idle decision with period *)
   end.
 
 Definition enc_gout (o : gout) : val :=
@@ -26,6 +30,7 @@ Definition enc_gout (o : gout) : val :=
   | RCount a b => VL [VI 2; VI a; VI b]
   | RList l => VL [VI 3; vlist VB l]
   | RIdle b => VL [VI 4; vbool b]
+  | RHls b => VL [VI 5; vbool b]
   end.
 Definition dec_gout (v : val) : gout :=
   match as_int (nthv 0 v) with
@@ -33,11 +38,12 @@ Definition dec_gout (v : val) : gout :=
   | 1 => RGet (as_opt as_nat (nthv 1 v))
   | 2 => RCount (as_int (nthv 1 v)) (as_int (nthv 2 v))
   | 3 => RList (map as_bytes (as_list (nthv 1 v)))
+  | 5 => RHls (as_bool (nthv 1 v))
   | _ => RIdle (as_bool (nthv 1 v))
   end.
 
 Definition c05_variant (v : val) : rvariant :=
-  {| v_unmap := as_bool (nthv 0 v); v_anycons := as_bool (nthv 1 v) |}.
+  {| v_unmap := as_bool (nthv 0 v); v_anycons := as_bool (nthv 1 v); v_hlsstamp := as_bool (nthv 2 v) |}.
 
 (* the end of the history: per stream (live, consumers ever attached, Consumer.Close calls) *)
 Definition enc_end (v : list (bool * Z * Z)) : val :=
